@@ -149,6 +149,10 @@ func checkC17(w *World, r *Report) {
 	r.Rule("R17.9", 1, "the duplicate test is skipped exactly for the descriptors the insert step files under groups")
 	ruleRemovalIdentity(w, r, "R17.8")
 	ruleCheckInsertAgreement(w, r, "R17.9")
+	r.Rule("R17.10", 2, "the descriptor list keeps registration order (what Build hands to the provider follows it)")
+	r.Try(func() { ruleListOrderPreserved(w, r, "R17.10", la) })
+	r.Rule("R17.11", 5, "what is served is what was registered: instance registrations are answered with the descriptor's own instance, constructors with the descriptor's own function")
+	r.Try(func() { ruleFunctionIdentity(w, r, "R17.11") })
 
 	// ---- R17.1
 	var writers []*FuncInfo
